@@ -85,6 +85,7 @@ class Contract:
         self.decreases: Optional[Clause] = None
         self.result_is: List[Clause] = []
         self.hints: List[Clause] = []
+        self.narrows: Dict[str, Clause] = {}    # declared in-place narrowing of an argument's stored type (W2)
         default_tag = props[0] if props else 'aux'
         for name, fn in vars(cls).items():
             if not inspect.isfunction(fn):
@@ -100,6 +101,8 @@ class Contract:
                 self.returns = Clause(name, fn, tag, 'returns')
             elif name == 'decreases':
                 self.decreases = Clause(name, fn, tag, 'decreases')
+            elif name.startswith('narrows_'):
+                self.narrows[name[len('narrows_'):]] = Clause(name, fn, tag, 'narrows')
             elif name.startswith('hint'):
                 self.hints.append(Clause(name, fn, 'aux', 'hint'))
             elif name.startswith('result_is_'):
